@@ -153,6 +153,21 @@ func randType(r *vh.Rng, depth int) reflect.Type {
 		}
 		return reflect.PointerTo(e)
 	case 4, 5:
+		if r.Chance(1, 4) {
+			// Go arrays (oracle only, outside the Coq universe): pointer-to-scalar, scalar and struct elements
+			var e reflect.Type
+			switch r.Intn(5) {
+			case 0:
+				e = reflect.PointerTo(tInt)
+			case 1:
+				e = reflect.PointerTo(tStr)
+			case 2:
+				e = tInt
+			default:
+				e = randType(r, depth-1)
+			}
+			return reflect.ArrayOf(1+r.Intn(3), e)
+		}
 		return reflect.SliceOf(randType(r, depth-1))
 	case 6:
 		if depth >= 2 && r.Chance(1, 2) {
@@ -201,6 +216,8 @@ func coqType(t reflect.Type) string {
 		return "(TPtr " + coqType(t.Elem()) + ")"
 	case reflect.Slice:
 		return "(TSlice " + coqType(t.Elem()) + ")"
+	case reflect.Array: // not in the Coq universe: messages only
+		return fmt.Sprintf("(TArr %d %s)", t.Len(), coqType(t.Elem()))
 	case reflect.Map:
 		return "(TMap " + coqType(t.Elem()) + ")"
 	case reflect.Struct:
@@ -234,6 +251,12 @@ func coqVal(v reflect.Value) string {
 			return "(VIface (Some (VDyn " + coqType(v.Elem().Type()) + " " + coqVal(v.Elem()) + ")))"
 		}
 		return "(VIface (Some " + coqVal(v.Elem()) + "))"
+	case reflect.Array:
+		var p []string
+		for i := 0; i < v.Len(); i++ {
+			p = append(p, coqVal(v.Index(i)))
+		}
+		return "(VArr [" + strings.Join(p, "; ") + "])"
 	case reflect.Slice:
 		if v.IsNil() {
 			return "(VSlice None)"
@@ -307,6 +330,10 @@ func fill(r *vh.Rng, v reflect.Value, depth int) {
 			p := reflect.New(t.Elem())
 			fill(r, p.Elem(), depth+1)
 			v.Set(p)
+		}
+	case reflect.Array:
+		for i := 0; i < t.Len(); i++ {
+			fill(r, v.Index(i), depth+1)
 		}
 	case reflect.Slice:
 		if r.Chance(1, 4) {
@@ -414,6 +441,14 @@ func randItem(r *vh.Rng, t reflect.Type, cur reflect.Value, nilProb int) *item {
 		return &item{kind: "str", s: "n" + string(rune('a'+r.Intn(3)))}
 	case reflect.Ptr:
 		return randItem(r, t.Elem(), sub(func() reflect.Value { return cur.Elem() }), nilProb)
+	case reflect.Array:
+		n := r.Intn(t.Len() + 2)
+		it := &item{kind: "arr", arr: []*item{}}
+		for i := 0; i < n; i++ {
+			ii := i
+			it.arr = append(it.arr, randItem(r, t.Elem(), sub(func() reflect.Value { return cur.Index(ii) }), 3))
+		}
+		return it
 	case reflect.Slice:
 		n := r.Intn(4)
 		it := &item{kind: "arr", arr: []*item{}}
@@ -545,6 +580,24 @@ func merge(c *mergeCtx, d reflect.Value, it *item) {
 		default:
 			c.err = true
 		}
+	case reflect.Array:
+		// the first n elements are updated (nil: that ELEMENT becomes zero), the others stay;
+		// stream elements beyond the array are skipped (ErrorIfNoArrayExpand is off)
+		if it.kind != "arr" {
+			c.err = true
+			return
+		}
+		for i := 0; i < len(it.arr) && i < d.Len(); i++ {
+			cur := reflect.New(t.Elem()).Elem()
+			if !c.sliceReset {
+				cur.Set(deepCopy(d.Index(i)))
+			}
+			merge(c, cur, it.arr[i])
+			if c.err {
+				return
+			}
+			d.Index(i).Set(cur)
+		}
 	case reflect.Slice:
 		if it.kind != "arr" {
 			c.err = true
@@ -646,17 +699,37 @@ func deepCopy(v reflect.Value) reflect.Value {
 		for i := 0; i < v.NumField(); i++ {
 			out.Field(i).Set(deepCopy(v.Field(i)))
 		}
+	case reflect.Array:
+		for i := 0; i < v.Len(); i++ {
+			out.Index(i).Set(deepCopy(v.Index(i)))
+		}
 	default:
 		out.Set(v)
 	}
 	return out
 }
 
+func hasArray(t reflect.Type) bool {
+	switch t.Kind() {
+	case reflect.Array:
+		return true
+	case reflect.Slice, reflect.Ptr, reflect.Map:
+		return hasArray(t.Elem())
+	case reflect.Struct:
+		for i := 0; i < t.NumField(); i++ {
+			if hasArray(t.Field(i).Type) {
+				return true
+			}
+		}
+	}
+	return false
+}
+
 func hasIfaceSlice(t reflect.Type) bool {
 	switch t.Kind() {
 	case reflect.Slice:
 		return t.Elem().Kind() == reflect.Interface || hasIfaceSlice(t.Elem())
-	case reflect.Ptr, reflect.Map:
+	case reflect.Ptr, reflect.Map, reflect.Array:
 		return hasIfaceSlice(t.Elem())
 	case reflect.Struct:
 		for i := 0; i < t.NumField(); i++ {
@@ -840,6 +913,11 @@ func main() {
 		}
 		if err1 == nil && !idemOK {
 			sum.FailC("idem", "idem", "decoding the same bytes a second time changed the destination", cj)
+		}
+		if hasArray(t) {
+			// Go arrays are outside the Coq universe: merge and idempotence oracles only
+			sum.Count("merge.array", fmt.Sprintf("array/%s/%s/nil%v/err%v", format, t.Kind(), it.hasNil(), err1 != nil))
+			continue
 		}
 		if ctx.ifaceElemKept && fast {
 			// F19-2 situation: the element's previous dynamic type meets a stream value of another type; what
